@@ -18,6 +18,7 @@
 import json
 import os
 import re
+import subprocess
 import time
 
 import vlib
@@ -26,25 +27,146 @@ LEVEL = "model_checking"
 JUDGE = "OrderJudge"
 JUDGE_CFG = "OrderJudge.cfg"
 
-# the relations each type must be seen to offer (an infrastructure guard against a harness that
-# silently stops detecting an operator - not a verdict about the code)
+# The relations each type is seen to offer on the tree this check is registered against.  A relation
+# that is listed here and no longer detected by the compiler ("a public API that the statement names no
+# longer compiles with well-formed arguments of a kind the harness used to pass", docs/AUDIT_BRIEF.md
+# A.5) is a VIOLATION C17:<type>:<operator>:does-not-compile; an additional relation is simply judged.
+ALL6 = "EQ NE LT LE GT GE"
 OFFERS = {
-    "optional<int>": "EQ NE LT", "optional<optional<int>>": "EQ NE LT", "either<int,long>": "EQ NE",
-    "variant<int,long>": "EQ NE LT", "tuple<int,int>": "EQ NE", "array<int,2>": "EQ NE HEQ",
-    "record<a:int,b:int>": "EQ NE", "strong_typedef<int>": "EQ NE LT LE GT GE HEQ",
-    "strong_typedef<int>/std::hash": "EQ NE LT LE GT GE HEQ", "strong_typedef<unsigned>": "EQ NE LT LE GT GE HEQ",
-    "vector<int,2>": "EQ NE LT LE GT GE HEQ", "vector<int,3>": "EQ NE LT LE GT GE HEQ",
-    "dim<int,2>": "EQ NE LT LE GT GE HEQ", "matrix<int,2,2>": "EQ NE HEQ", "box<int,2>": "EQ NE LT",
-    "box<int,1>": "EQ NE LT", "sphere<int,2>": "EQ NE", "bitfield<e3,u8>": "EQ NE HEQ",
-    "bitfield<e3,u8>/std::hash": "EQ NE HEQ", "enum_array<e3,int>": "EQ NE", "grid<int,2>": "EQ NE LT LE GT GE",
-    "tree<int>": "EQ NE", "raw_vector<int>": "EQ NE LT LE GT GE HEQ", "reference<int>": "EQ NE LT HEQ",
-    "reference<int>/std::hash": "EQ NE LT HEQ", "shared_ptr<int>": "EQ NE LT HEQ",
-    "shared_ptr<int>/std::hash": "EQ NE LT HEQ", "recursive<int>": "EQ NE",
+    "optional<int>": "EQ NE LT", "optional<optional<int>>": "EQ NE LT", "optional<reference<int>>": "EQ NE LT",
+    "either<int,long>": "EQ NE",
+    "variant<int,long>": "EQ NE LT", "variant<int,long,unsigned>": "EQ NE LT",
+    "tuple<int,int>": "EQ NE", "tuple<int,long,int>": "EQ NE", "tuple<int>": "EQ NE",
+    "array<int,2>": "EQ NE HEQ", "array<int,3>": "EQ NE HEQ", "array<int,1>": "EQ NE HEQ",
+    "record<a:int,b:int>": "EQ NE", "record<a:int,b:int>|record<b:int,a:int>": "EQ NE",
+    "record<a:int,b:long,c:int>|record<c,a,b>": "EQ NE",
+    "strong_typedef<int>": ALL6 + " HEQ", "strong_typedef<int>/std::hash": ALL6 + " HEQ", "strong_typedef<unsigned>": ALL6 + " HEQ",
+    "vector<int,2>": ALL6 + " HEQ", "vector<int,3>": ALL6 + " HEQ", "vector<int,4>": ALL6 + " HEQ", "vector<int,1>": ALL6 + " HEQ",
+    "dim<int,2>": ALL6 + " HEQ", "dim<int,3>": ALL6 + " HEQ", "vector<int,2>|matrix-row": "EQ NE HEQ",
+    "matrix<int,2,2>": "EQ NE HEQ", "matrix<int,3,2>": "EQ NE HEQ",
+    "box<int,2>": "EQ NE LT", "box<int,1>": "EQ NE LT", "box<int,3>": "EQ NE LT",
+    "sphere<int,2>": "EQ NE", "sphere<int,3>": "EQ NE",
+    "bitfield<e3,u8>": "EQ NE HEQ", "bitfield<e3,u8>/std::hash": "EQ NE HEQ",
+    "bitfield<e9,u8>": "EQ NE HEQ", "bitfield<e9,u8>/std::hash": "EQ NE HEQ",
+    "bitfield<e11,u8>": "EQ NE HEQ", "bitfield<e11,u8>/std::hash": "EQ NE HEQ",
+    "bitfield<e17,u16>": "EQ NE HEQ", "bitfield<e17,u16>/std::hash": "EQ NE HEQ", "bitfield<e17,u8>": "EQ NE HEQ",
+    "bitfield<e9,default>": "EQ NE HEQ",
+    "enum_array<e3,int>": "EQ NE", "enum_array<e1,int>": "EQ NE",
+    "grid<int,2>": ALL6, "grid<int,1>": ALL6, "grid<int,3>": ALL6,
+    "tree<int>": "EQ NE", "raw_vector<int>": ALL6 + " HEQ",
+    "reference<int>": "EQ NE LT HEQ", "reference<int>/std::hash": "EQ NE LT HEQ", "reference<int const>": "EQ NE LT HEQ",
+    "shared_ptr<int>": "EQ NE LT HEQ", "shared_ptr<int>/std::hash": "EQ NE LT HEQ",
+    "shared_ptr<base>|shared_ptr<derived>": "EQ NE LT", "shared_ptr<derived>": "EQ NE LT HEQ",
+    "recursive<int>": "EQ NE",
 }
+# which part records which types (to tell "the part did not run to the end" from "the type is gone")
+PART_TYPES = {
+    "optional": ["optional<int>", "optional<optional<int>>"], "either": ["either<int,long>"],
+    "variant": ["variant<int,long>", "variant<int,long,unsigned>"], "tuple": ["tuple<int,int>", "tuple<int,long,int>", "tuple<int>"],
+    "array": ["array<int,2>", "array<int,3>", "array<int,1>"],
+    "record": ["record<a:int,b:int>", "record<a:int,b:int>|record<b:int,a:int>", "record<a:int,b:long,c:int>|record<c,a,b>"],
+    "strong": ["strong_typedef<int>", "strong_typedef<int>/std::hash", "strong_typedef<unsigned>"],
+    "vector": ["vector<int,2>", "vector<int,3>", "vector<int,4>", "vector<int,1>", "dim<int,2>", "dim<int,3>", "vector<int,2>|matrix-row"],
+    "matrix": ["matrix<int,2,2>", "matrix<int,3,2>"], "box": ["box<int,2>", "box<int,1>", "box<int,3>"],
+    "sphere": ["sphere<int,2>", "sphere<int,3>"],
+    "bitfield": ["bitfield<e3,u8>", "bitfield<e3,u8>/std::hash", "bitfield<e9,u8>", "bitfield<e9,u8>/std::hash", "bitfield<e11,u8>",
+                 "bitfield<e11,u8>/std::hash", "bitfield<e17,u16>", "bitfield<e17,u16>/std::hash", "bitfield<e17,u8>", "bitfield<e9,default>"],
+    "enum_array": ["enum_array<e3,int>", "enum_array<e1,int>"], "grid": ["grid<int,2>", "grid<int,1>", "grid<int,3>"],
+    "tree": ["tree<int>"], "raw_vector": ["raw_vector<int>"],
+    "reference": ["reference<int>", "reference<int>/std::hash", "reference<int const>", "optional<reference<int>>"],
+    "shared_ptr": ["shared_ptr<int>", "shared_ptr<int>/std::hash", "shared_ptr<base>|shared_ptr<derived>", "shared_ptr<derived>"],
+    "recursive": ["recursive<int>"],
+}
+OPNAME = {"EQ": "operator==", "NE": "operator!=", "LT": "operator<", "LE": "operator<=", "GT": "operator>", "GE": "operator>=",
+          "HEQ": "hash", "comp": "accessors"}
+
+# Harness units: every unit is ONE translation unit compiled separately; c17_main.cpp (no fcppt header)
+# refers to the entry points through weak symbols, so a unit that does not compile against the tree under
+# test is left out of the link and the others are still driven and judged (docs/AUDIT_BRIEF.md A.5,
+# EXTENSION_BRIEF Clarification 2).   (part = unit = section macro, source, inside the statement of C17?)
+ORDER_PARTS = ["optional", "either", "variant", "tuple", "array", "record", "strong", "vector", "matrix", "box", "sphere",
+               "bitfield", "enum_array", "grid", "tree", "raw_vector", "reference", "shared_ptr", "recursive"]
+UNITS = [(p, "c17_order.cpp", True) for p in ORDER_PARTS] + [
+    ("stops", "c17_strong.cpp", True), ("wrap", "c17_strong.cpp", True),
+    # observed-only kinds (outside the statement): a failure here is an OBSERVATION
+    ("own", "c17_own.cpp", False), ("wrapx", "c17_own.cpp", False)]
+IN_SCOPE_PART = {u[0]: u[2] for u in UNITS}
+# what each in-scope unit names in the signature of a compile failure
+UNIT_NAME = {"strong": "strong_typedef", "stops": "strong_typedef-operators", "wrap": "wrappers"}
 
 
-def build():
-    return vlib.build_harness("c17_wrappers", ["c17_main.cpp", "c17_order.cpp", "c17_strong.cpp", "c17_own.cpp"], libs=())
+def genuine_compile_error(out):
+    """a diagnostic of the compiler about the code, as opposed to the compiler being killed / out of
+    memory / out of disk on the shared box (which is our infrastructure, never a verdict)"""
+    if re.search(r"Killed signal|internal compiler error|virtual memory exhausted|No space left|cannot allocate memory|std::bad_alloc", out):
+        return False
+    body = re.sub(r"^compile failed: [^\n]*\n?", "", out)
+    return re.search(r"error|note: |required from|In file included", body) is not None
+
+
+def compile_error_summary(out):
+    lines = out.splitlines()
+    first = next((i for i, l in enumerate(lines) if " error: " in l or "fatal error:" in l), None)
+    if first is None:
+        return out[-400:]
+    return re.sub(r"\s+", " ", lines[first])[:400]
+
+
+def build(ctx):
+    """Compile every unit on its own and link what compiled.  Returns (binary, parts that were linked).
+    A unit that does not compile against the tree under test is a verdict about the tree (VIOLATION
+    C17:<unit>:does-not-compile for the units that drive what the statement names, OBSERVATION for the
+    observed-only units), never an infrastructure failure - except c17_main.cpp (no fcppt header)."""
+    t0 = time.time()
+    san, opt = "asan", "-O1"
+    tag = vlib.sha((vlib.REPO + san + opt + "c17-units").encode())[:10]
+    objdir = vlib.mkdir(os.path.join(vlib.BUILD, "obj", tag))
+
+    def comp(u):
+        unit, src, scope = u
+        obj = os.path.join(objdir, "h_c17_%s.o" % unit)
+        defs = () if unit == "main" else ("C17_SECTION_" + unit,)
+        for attempt in (1, 2):
+            try:
+                o, rebuilt = vlib.compile_obj(os.path.join(vlib.HARNESS, src), obj, vlib.base_flags(san, opt, defs))
+                return unit, o, rebuilt, None
+            except vlib.Infra as e:
+                if genuine_compile_error(str(e)):
+                    return unit, None, 0, str(e)
+                if attempt == 2:
+                    raise
+                time.sleep(5)   # compiler killed on the shared box: once more
+    res = vlib.parallel(comp, [("main", "c17_main.cpp", None)] + UNITS, workers=vlib.NCPU)
+    objs, failed, rebuilt = [], {}, 0
+    for unit, o, r, err in res:
+        if err is None:
+            objs.append(o)
+            rebuilt += r
+        else:
+            failed[unit] = err
+    if "main" in failed:
+        raise vlib.Infra("c17_main.cpp (no fcppt header) does not compile:\n" + failed["main"][-3000:])
+    built = [u[0] for u in UNITS if u[0] not in failed]
+    out = os.path.join(vlib.mkdir(os.path.join(vlib.BUILD, "bin", tag)), "c17_wrappers_" + vlib.sha(" ".join(sorted(built)).encode())[:8])
+    if rebuilt or not os.path.exists(out):
+        tout = out + ".tmp%d" % os.getpid()
+        p = subprocess.run(["g++", "-pthread"] + vlib.SAN_FLAGS[san] + objs + ["-o", tout],
+                           stdout=subprocess.PIPE, stderr=subprocess.STDOUT, text=True, errors="replace")
+        if p.returncode != 0:
+            raise vlib.Infra("link failed: c17_wrappers\n%s" % p.stdout[-4000:])
+        os.replace(tout, out)
+    vlib.log("build c17_wrappers: %d units (%d rebuilt, %d do not compile) in %.1fs" % (len(UNITS) + 1, rebuilt, len(failed), time.time() - t0))
+    for unit, src, scope in UNITS:
+        if unit not in failed:
+            continue
+        msg = "harness unit %s (harness/%s -DC17_SECTION_%s) does not compile against this tree: %s" % (
+            unit, src, unit, compile_error_summary(failed[unit]))
+        if scope:
+            ctx.reject("C17:%s:does-not-compile" % UNIT_NAME.get(unit, unit), msg, {"unit": unit})
+        else:
+            observe(ctx, "C17:%s:does-not-compile" % unit, msg)
+    ctx.extra["units_not_compiling"] = sorted(failed)
+    return out, built
 
 
 def retry_killed(fn, *a, **kw):
@@ -92,11 +214,21 @@ def signature(rec, reason):
     return "C17:%s:%s" % (where, clause)
 
 
+def spread(lines, nchunks):
+    """A permutation of range(len(lines)) that deals the records, longest first, round-robin into
+    nchunks runs: judge_trace cuts the file into nchunks runs of equal length, and the few heavy records
+    (order records with 80 x 80 matrices: n^3 work) must not all land in the first one."""
+    idx = sorted(range(len(lines)), key=lambda i: -len(lines[i]))
+    bins = [idx[k::nchunks] for k in range(nchunks)]
+    return [i for bn in bins for i in bn]
+
+
 def judge_lines(ctx, lines, origin, verdict=True):
     """Judge a list of record texts; returns {1-based line: set of reasons}.  With verdict=False
     nothing is reported (used by the binding guard).  The judge keeps only the first 300 rejected
     records of a chunk verbatim, so the kinds inside the statement of C17 and each observed-only kind
-    are judged as separate groups: a flood of rejections in one group cannot hide one in another."""
+    are judged as separate groups (concurrently): a flood of rejections in one group cannot hide one in
+    another."""
     if verdict:
         scope = in_scope_kinds()
         groups = {}
@@ -106,24 +238,43 @@ def judge_lines(ctx, lines, origin, verdict=True):
             groups.setdefault("inscope" if kd in scope else kd, []).append(k)
         if len(groups) > 1:
             why_of = {}
-            for g in sorted(groups):
-                sub = judge_lines(ctx, [lines[k] for k in groups[g]], "%s_%s" % (origin, g), True)
+            names = sorted(groups)
+            subs = vlib.parallel(lambda g: judge_group(ctx, [lines[k] for k in groups[g]], "%s_%s" % (origin, g)), names, workers=len(names))
+            for g, sub in zip(names, subs):
                 for l, w in sub.items():
                     why_of[groups[g][l - 1] + 1] = w
+            report(ctx, lines, why_of, origin)
             return why_of
+    why_of = judge_group(ctx, lines, origin, nchunks=None if verdict else 8)
+    if verdict:
+        report(ctx, lines, why_of, origin)
+    return why_of
+
+
+def judge_group(ctx, lines, origin, nchunks=None):
+    """TLC judges one group of records (no reporting); returns {1-based line: set of reasons}."""
+    if nchunks is None:
+        nchunks = max(1, min(8, len(lines) // 400))
+        if any(is_order(l) for l in lines):
+            nchunks = 12
+    nchunks = max(1, min(nchunks, len(lines)))
+    perm = spread(lines, nchunks)
     path = os.path.join(ctx.workdir, "judge_%s.ndjson" % origin)
     with open(path, "w") as f:
-        f.write("\n".join(lines) + "\n")
-    bad = retry_killed(vlib.judge_trace, ctx, JUDGE, JUDGE_CFG, path, boundary_key=None, timeout=2400,
-                           nchunks=(max(1, min(vlib.NCPU, len(lines) // 400)) if verdict else 1))
+        f.write("\n".join(lines[i] for i in perm) + "\n")
+    bad = retry_killed(vlib.judge_trace, ctx, JUDGE, JUDGE_CFG, path, boundary_key=None, timeout=2400, nchunks=nchunks)
     os.unlink(path)
     why_of = {}
     for b in bad:
+        k = perm[b["l"] - 1]
         if "HARNESS-PRECONDITION" in b["why"] or "unknown-record-kind" in b["why"] or b["op"] == "?":
-            raise vlib.Infra("the judge could not interpret record %d of %s (%s): %s" % (b["l"], origin, b["why"], lines[b["l"] - 1][:300]))
-        why_of[b["l"]] = set(b["why"])
-    if not verdict:
-        return why_of
+            raise vlib.Infra("the judge could not interpret record %d of %s (%s): %s" % (k + 1, origin, b["why"], lines[k][:300]))
+        why_of[k + 1] = set(b["why"])
+    return why_of
+
+
+def report(ctx, lines, why_of, origin):
+    """rejected records -> VIOLATION (kinds inside the statement) / OBSERVATION (the others)"""
     ctx.evaluations += len(lines)
     scope = in_scope_kinds()
     for l in sorted(why_of):
@@ -131,29 +282,53 @@ def judge_lines(ctx, lines, origin, verdict=True):
         rec = json.loads(text)
         for why in sorted(why_of[l]):
             if rec["f"] not in scope:
-                observe(ctx, "C17:%s:%s" % (rec["f"], why), "%s record (%s): %s; %s" % (rec["f"], origin, why, text[:500]))
+                if rec["f"] == "orderx":
+                    observe(ctx, signature(rec, why), "orderx record (%s): %s; %s" % (origin, why, explain(rec, why)))
+                else:
+                    observe(ctx, "C17:%s:%s" % (rec["f"], why), "%s record (%s): %s; %s" % (rec["f"], origin, why, text[:500]))
                 continue
             detail = explain(rec, why) if rec["f"] == "order" else text[:500]
             ctx.reject(signature(rec, why), "%s record (%s): the specification cannot explain %s; %s" % (
                 rec["f"], origin, why, detail), {"record": rec if rec["f"] != "order" else {"f": "order", "type": rec["type"]}, "reason": why})
-    return why_of
 
 
 def explain(rec, why):
     """A small witness from the matrices for the message (the verdict itself is TLC's)."""
     n, comp, how = rec["n"], rec["comp"], rec["how"]
     has = set(rec["has"])
-    out = []
-    if why.startswith("eq-not-component-equality") and "EQ" in has:
-        for a in range(n):
-            for b in range(n):
-                if (rec["EQ"][a][b] == 1) != (comp[a] == comp[b]):
-                    out.append("value %d (%s, components %s) == value %d (%s, components %s) gave %d" % (
-                        a + 1, how[a], comp[a], b + 1, how[b], comp[b], rec["EQ"][a][b]))
-                    break
-            if out:
-                break
-    return "type %s, %d values; %s" % (rec["type"], n, out[0] if out else "see the replay payload")
+    EQ, LT, HEQ = rec.get("EQ"), rec.get("LT"), rec.get("HEQ")
+
+    def val(i):
+        return "value %d (%s, components %s)" % (i + 1, how[i], comp[i])
+    pairs = [(a, b) for a in range(n) for b in range(n)]
+    out = None
+    clause = why.split("@")[0]
+    try:
+        if clause == "eq-not-component-equality" and "EQ" in has:
+            out = next(("%s == %s gave %d" % (val(a), val(b), EQ[a][b]) for a, b in pairs if (EQ[a][b] == 1) != (comp[a] == comp[b])), None)
+        elif clause == "ne-not-the-negation-of-eq":
+            out = next(("%s != %s gave %d, == gave %d" % (val(a), val(b), rec["NE"][a][b], EQ[a][b]) for a, b in pairs if rec["NE"][a][b] == EQ[a][b]), None)
+        elif clause == "hash-differs-for-equal-values":
+            out = next(("%s == %s but their hashes differ" % (val(a), val(b)) for a, b in pairs if EQ[a][b] == 1 and HEQ[a][b] == 0), None)
+        elif clause == "lt-not-irreflexive":
+            out = next(("%s < itself" % val(a) for a in range(n) if LT[a][a] == 1), None)
+        elif clause == "lt-incompatible-with-eq":
+            out = next(("%s == %s but one is < the other" % (val(a), val(b)) for a, b in pairs if EQ[a][b] == 1 and (LT[a][b] or LT[b][a])), None)
+            if out is None:
+                out = next(("%s == %s but < tells them apart against %s" % (val(a), val(b), val(c)) for a, b in pairs if EQ[a][b] == 1
+                            for c in range(n) if LT[a][c] != LT[b][c] or LT[c][a] != LT[c][b]), None)
+        elif clause == "lt-not-total-on-distinct-objects":
+            out = next(("%s and %s are different (== gave 0) but neither is < the other" % (val(a), val(b)) for a, b in pairs
+                        if EQ[a][b] == 0 and not LT[a][b] and not LT[b][a]), None)
+        elif clause == "lt-not-the-documented-order":
+            out = next(("%s < %s gave %d" % (val(a), val(b), LT[a][b]) for a, b in pairs if (LT[a][b] == 1) != (comp[a] < comp[b])), None)
+        elif clause in ("le-not-derived-from-lt", "gt-not-derived-from-lt", "ge-not-derived-from-lt"):
+            m = clause[:2].upper()
+            want = {"LE": lambda a, b: 1 - LT[b][a], "GT": lambda a, b: LT[b][a], "GE": lambda a, b: 1 - LT[a][b]}[m]
+            out = next(("%s %s %s gave %d" % (val(a), OPNAME[m][8:], val(b), rec[m][a][b]) for a, b in pairs if rec[m][a][b] != want(a, b)), None)
+    except (KeyError, IndexError, TypeError):
+        out = None
+    return "type %s, %d values; %s" % (rec["type"], n, out or "see the replay payload")
 
 
 def corrupt(lines, why_of):
@@ -167,7 +342,7 @@ def corrupt(lines, why_of):
         out.append(json.dumps(r, separators=(",", ":")))
         if must_reject:
             want.add(len(out))
-    orders = [r for r in accepted if r["f"] == "order"]
+    orders = [r for r in accepted if r["f"] in ("order", "orderx")]
     if orders:
         add(orders[0], False)
     for k, r in enumerate(orders):
@@ -245,25 +420,114 @@ def observe(ctx, sig, what):
         vlib.log("OBSERVATION (outside the statement of C17, not a verdict): %s: %s" % (sig, what[:400]))
 
 
-def record(ctx, binary, thorough, scripts=None):
-    path = os.path.join(ctx.workdir, "recorded.ndjson")
-    rc, out = vlib.run_harness(binary, [path, "all", "thorough" if thorough else "quick", ctx.seed] + ([scripts] if scripts else []), timeout=1800)
-    lines, tail = vlib.check_trace_file(path)
-    if rc == 3:
-        raise vlib.Infra("harness usage error: %s" % out[-300:])
-    if rc != 0:
+def is_order(line):
+    return line.startswith('{"f":"order"') or line.startswith('{"f":"orderx"')
+
+
+def crash_site(part, tail):
+    """(name for the signature, description) of the record that was being written when the harness died"""
+    tail = tail or ""
+    m = re.search(r'"type":"([^"]+)"', tail)
+    if m:
+        rels = re.findall(r'"(comp|EQ|NE|LT|LE|GT|GE|HEQ)":', tail)
+        step = OPNAME[rels[-1]] if rels else "building-the-values"
+        return "%s:%s" % (m.group(1), step)
+    m = re.search(r'"f":"(st_int|st_u32)"', tail)
+    if m:
+        return "strong_typedef<%s>:operators" % ("int" if m.group(1) == "st_int" else "unsigned")
+    m = re.search(r'"f":"wrapx?".*?"kind":"([^"]+)"', tail)
+    if m:
+        return m.group(1)
+    m = re.search(r'"f":"(\w+)"', tail)
+    return m.group(1) if m else part
+
+
+MAX_RESUMES = 4
+
+
+def record_part(ctx, binary, part, thorough, scripts=None):
+    """Run one part of the harness.  After a crash / sanitizer abort / hang / uncaught exception inside
+    take k the complete records are kept, the event is returned (record_all turns it into a VIOLATION for
+    the parts inside the statement, an OBSERVATION otherwise) and the part is resumed at take k + 1 (at
+    most MAX_RESUMES times)."""
+    lines, skip, events = [], 0, []
+    for attempt in range(MAX_RESUMES + 1):
+        path = os.path.join(ctx.workdir, "recorded_%s.ndjson" % part)
+        rc, out = vlib.run_harness(binary, ["record", path, part, "thorough" if thorough else "quick", ctx.seed, skip]
+                                   + ([scripts] if scripts and part == "own" else []), timeout=1500)
+        try:
+            got, tail = vlib.check_trace_file(path)
+        except OSError:
+            got, tail = [], None
+        try:
+            os.unlink(path)
+        except OSError:
+            pass
+        # a crash record ({"e":"crash",...}) is not a record of the trace
+        got = [l for l in got if l.startswith('{"f":"')]
+        lines += got
+        if rc == 0:
+            break
+        if rc in (3, 4):
+            raise vlib.Infra("harness usage error (part %s): %s" % (part, out[-300:]))
         kind = {66: "sanitizer", 67: "crash", 68: "hang", 124: "timeout"}.get(rc, "exit%d" % rc)
-        m = None
-        if tail:
-            m = re.search(r'"type":"([^"]+)"', tail) or re.search(r'"f":"(\w+)"', tail)
-        what = "%s while recording: %s; partial line: %s" % (kind, out[-300:], (tail or "")[:300])
-        fk = re.search(r'"f":"(\w+)"', tail or "")
-        if fk and fk.group(1) not in in_scope_kinds():
-            observe(ctx, "C17:%s:%s" % (fk.group(1), kind), what)
-        else:
-            ctx.reject("C17:%s:%s" % (m.group(1) if m else "?", kind), what, {"partial_line": tail})
-    os.unlink(path)
-    return lines
+        if "uncaught exception" in out:
+            kind = "exception"
+        site = crash_site(part, tail)
+        what = "%s while recording part %s (%s); harness output: %s; partial line: %s" % (kind, part, site, out[-400:].strip(), (tail or "")[:300])
+        events.append({"kind": kind, "site": site, "what": what, "tail": (tail or "")[:2000]})
+        k = re.search(r'"k":(\d+)', tail or "")
+        if not k or rc == 124:
+            break           # died outside a record (e.g. at exit): nothing to resume
+        skip = int(k.group(1))
+    return part, lines, events
+
+
+def record_all(ctx, binary, parts, thorough, scripts=None):
+    t0 = time.time()
+    res = vlib.parallel(lambda p: record_part(ctx, binary, p, thorough, scripts), parts, workers=8)
+    vlib.log("harness: %d parts recorded in %.1fs" % (len(parts), time.time() - t0))
+    lines, incomplete = [], set()
+    for part, ls, events in res:
+        lines += ls
+        if events:
+            incomplete.add(part)
+            ctx.extra.setdefault("harness_events", []).append({"part": part, "events": ["%s:%s" % (e["site"], e["kind"]) for e in events]})
+        for e in events:
+            if IN_SCOPE_PART[part]:
+                ctx.reject("C17:%s:%s" % (e["site"], e["kind"]), e["what"], {"part": part, "partial_line": e["tail"]})
+            else:
+                observe(ctx, "C17:%s:%s" % (part, e["kind"]), e["what"])
+    return lines, incomplete
+
+
+def check_offers(ctx, orders, parts, incomplete):
+    """The operator sets detected by the compiler against the table: a relation that is gone is a
+    VIOLATION (docs/AUDIT_BRIEF.md A.5); a type that is missing although its part ran to the end is a
+    harness bug."""
+    seen = {r["type"]: set(r["has"]) for r in orders}
+    kind = {r["type"]: r["f"] for r in orders}
+    scope = in_scope_kinds()
+    for part in parts:
+        for t in PART_TYPES.get(part, []):
+            want = set(OFFERS[t].split())
+            if t not in seen:
+                if part not in incomplete:
+                    raise vlib.Infra("the harness part %s ran to the end without recording type %s" % (part, t))
+                continue
+            for rel in sorted(want - seen[t]):
+                if kind[t] not in scope:
+                    observe(ctx, "C17:%s:%s:does-not-compile" % (t, OPNAME[rel]), "type %s no longer offers %s" % (t, OPNAME[rel]))
+                    continue
+                ctx.reject("C17:%s:%s:does-not-compile" % (t, OPNAME[rel]),
+                           "type %s no longer offers %s (the expression does not compile with the operands the harness used to pass)" % (t, OPNAME[rel]),
+                           {"record": {"f": "order", "type": t}, "missing": rel})
+            extra = seen[t] - want
+            if extra:
+                vlib.log("INFO: type %s offers additional relations %s (judged like the others)" % (t, sorted(extra)))
+    unknown = set(seen) - set(OFFERS)
+    if unknown:
+        raise vlib.Infra("the harness recorded types the table does not list: %s" % sorted(unknown))
 
 
 def run(ctx):
@@ -272,24 +536,22 @@ def run(ctx):
     # does not depend on the tree); such a run writes no usable evidence
     if os.environ.get("VERIF_C17_SKIP_MC") != "1":
         model_check(ctx, thorough)
-    binary = build()
-    scripts = ownership_scripts(ctx)
-    lines = record(ctx, binary, thorough, scripts)
-    orders = [json.loads(l) for l in lines if l.startswith('{"f":"order"')]
-    seen = {r["type"]: " ".join(r["has"]) for r in orders}
-    if seen != OFFERS:
-        diff = {t: (seen.get(t), OFFERS.get(t)) for t in set(seen) | set(OFFERS) if seen.get(t) != OFFERS.get(t)}
-        raise vlib.Infra("the harness does not see the expected operator sets (type: (seen, expected)): %s" % diff)
+    binary, parts = build(ctx)
+    scripts = ownership_scripts(ctx) if "own" in parts else None
+    lines, incomplete = record_all(ctx, binary, parts, thorough, scripts)
+    orders = [json.loads(l) for l in lines if is_order(l)]
+    check_offers(ctx, orders, parts, incomplete)
     # the verdict
     why_of = judge_lines(ctx, lines, "recorded")
     # binding guard (independent of the verdict): copies of ACCEPTED records with one observation changed
     # must be rejected, an untouched copy accepted - otherwise the judge is not looking at the data
     bad_lines, want = corrupt(lines, why_of)
-    if len(want) < 5:
+    if len(want) < 5 and not ctx.violations:
         raise vlib.Infra("binding guard: only %d corrupted records could be formed" % len(want))
-    got = judge_lines(ctx, bad_lines, "corrupted", verdict=False)
-    if set(got) != want:
-        raise vlib.Infra("binding guard: the judge rejected records %s of the corrupted log, expected %s" % (sorted(got), sorted(want)))
+    if want:
+        got = judge_lines(ctx, bad_lines, "corrupted", verdict=False)
+        if set(got) != want:
+            raise vlib.Infra("binding guard: the judge rejected records %s of the corrupted log, expected %s" % (sorted(got), sorted(want)))
     ctx.extra["binding_guard"] = {"corrupted_records": len(want), "all_rejected": True, "untouched_copy_accepted": True}
     ctx.traces_validated += len(orders)
     triples = 0
@@ -324,7 +586,8 @@ def run(ctx):
             for o in r["ops"]:
                 ctx.count_class(("own", prev, o["op"]))
                 prev = o["op"]
-    ctx.sample({"order_record_excerpt": {k: (orders[0][k] if k in ("type", "n", "how", "comp", "has") else orders[0][k][:3]) for k in ("type", "n", "how", "comp", "has", "EQ", "LT")}})
+    if orders:
+        ctx.sample({"order_record_excerpt": {k: (orders[0][k] if k in ("type", "n", "how", "comp", "has") else orders[0][k][:3]) for k in ("type", "n", "how", "comp", "has", "EQ", "LT")}})
     for prefix in ('{"f":"st_int"', '{"f":"st_u32"', '{"f":"wrap"', '{"f":"wrapx"', '{"f":"own","src":"rnd"'):
         for l in lines:
             if l.startswith(prefix) and 200 < len(l) < 2500 or (l.startswith(prefix) and "wrap" in prefix):
@@ -347,16 +610,32 @@ def run(ctx):
 
 
 def replay(ctx, payload):
-    binary = build()
-    lines = record(ctx, binary, payload.get("tier") == "thorough")
-    rec = payload["payload"].get("record", {})
+    binary, parts = build(ctx)      # a unit that does not compile is rejected again in here
+    pl = payload["payload"]
+    rec = pl.get("record", {})
+    want_parts = parts
+    if pl.get("part"):
+        want_parts = [p for p in parts if p == pl["part"]]
+    elif pl.get("unit"):
+        want_parts = []
+    elif rec.get("f") == "order":
+        want_parts = [p for p in parts if rec.get("type") in PART_TYPES.get(p, [])]
+    elif rec.get("f") in ("st_int", "st_u32"):
+        want_parts = [p for p in parts if p == "stops"]
+    elif rec.get("f") == "wrap":
+        want_parts = [p for p in parts if p == "wrap"]
+    scripts = ownership_scripts(ctx) if "own" in want_parts else None
+    lines, incomplete = record_all(ctx, binary, want_parts, payload.get("tier") == "thorough", scripts)
+    orders = [json.loads(l) for l in lines if is_order(l)]
+    check_offers(ctx, orders, want_parts, incomplete)
     if rec.get("f") == "order":
-        lines = [l for l in lines if l.startswith('{"f":"order"') and json.loads(l)["type"] == rec["type"]]
+        lines = [l for l in lines if is_order(l) and json.loads(l)["type"] == rec["type"]]
     elif rec:
         keep = [l for l in lines if l.startswith('{"f":"%s"' % rec["f"]) and all(json.loads(l).get(k) == rec.get(k) for k in ("a", "b", "kind", "in"))]
         lines = keep or lines
     ctx.traces_validated += 1
     ctx.count_class("replay")
     ctx.sample({"replayed": json.loads(lines[0])["f"] if lines else None})
-    judge_lines(ctx, lines, "replay")
+    if lines:
+        judge_lines(ctx, lines, "replay")
     ctx.rule = "replay: the record of the saved violation is recorded again on the current tree and judged"
